@@ -269,6 +269,7 @@ class Check:
         self.assumptions = []
         self.violations = []   # (why, event/replay payload)
         self.known_hits = []
+        self.beyond = []       # divergences on inputs outside the property's statement: reported, never a violation
         self.mc_runs = []
         self.extra = {}
         self.known = load_known()
@@ -308,6 +309,9 @@ class Check:
             self.mismatch(why, ev, driver_cmd)
 
     def mismatch(self, why, ev, driver_cmd=""):
+        if isinstance(ev, dict) and ev.get("scope") == "beyond":
+            self.beyond.append((why, ev))
+            return
         for k in self.known:
             if _match_known(k, self.pid, why, ev):
                 self.known_hits.append((k, why, ev))
@@ -327,6 +331,16 @@ class Check:
                 seen.add(key)
                 n = sum(1 for kk, _, _ in self.known_hits if kk is k)
                 log(f"KNOWN-FINDING: property={self.pid} {key} ({n} matching observations)")
+        if self.beyond:
+            bg = {}
+            for why, ev in self.beyond:
+                bg.setdefault(why, []).append(ev)
+            path = os.path.join(REPLAY, f"{self.pid}-beyond.json")
+            with open(path, "w") as f:
+                json.dump({"property": self.pid, "note": "divergences from the specification on inputs outside the "
+                           "property's statement; not violations", "groups": {w: e[:20] for w, e in bg.items()}}, f, indent=1)
+            for w, e in sorted(bg.items()):
+                log(f"BEYOND-PROPERTY: property={self.pid} {w} ({len(e)} cases, e.g. {e[0].get('s', '')!r}) see {path}")
         # group violations by reason, one replay file per reason (max 20 files)
         groups = {}
         for why, payload in self.violations:
@@ -349,6 +363,7 @@ class Check:
             "exhaustive": self.exhaustive,
             "model_checking_runs": self.mc_runs,
             "known_findings_hit": len(self.known_hits),
+            "beyond_property_divergences": len(self.beyond),
         }
         cov.update(self.extra)
         ev = {
